@@ -206,7 +206,7 @@ pub fn pick_with(rng: &mut Rng, opts: &GenOpts, layout: bool) -> Picked {
             "max_calls": opts.max_calls, "max_depth": opts.max_depth, "top_stmts": opts.top_stmts, "interp": opts.interp,
         });
         let p = build(&aux);
-        if p.overflow || p.events.is_empty() || p.events.len() > 160 || p.text.len() > 24_000 {
+        if p.overflow || p.events.is_empty() || p.events.len() > 160 || (p.text.len() > 24_000 && !p.feats.iter().flatten().any(|f| f == "bulk-padding")) || p.text.len() > 400_000 {
             continue;
         }
         return Picked { label: format!("W2:{}", aux["w2_seed"]), program: p.text, aux };
